@@ -389,3 +389,22 @@ func TestF30_QuotedOptionalStepBlocked(t *testing.T) {
 		t.Errorf("s-2 is outside the dependencies of s-3 and must be refused; got %v %.300s", err, b)
 	}
 }
+
+func TestF31_ElementTypeOnlyOnTheSchemaList(t *testing.T) {
+	schema := "ls: [...string]\nln: [...number]\n"
+	for _, q := range []string{"$.ls.AsArray().First().Left(1)", "$.ln.AsArray().Last().Add(1)"} {
+		tc, err := mpath.CueValidate(q, schema, "")
+		if tc == nil {
+			t.Fatalf("%s: %v", q, err)
+		}
+		b, _ := json.Marshal(tc)
+		if !strings.Contains(string(b), `"error"`) {
+			t.Errorf("%s fails at run time with a wrong-type error (AsArray().First() is the list itself): it must not be accepted; got %.200s", q, b)
+		}
+	}
+	tc, _ := mpath.CueValidate("$.ls.First().Left(1)", schema, "")
+	b, _ := json.Marshal(tc)
+	if strings.Contains(string(b), `"error"`) {
+		t.Errorf("$.ls.First().Left(1) is a String call on a string element and must be accepted: %.300s", b)
+	}
+}
